@@ -93,7 +93,7 @@ impl<T: crate::EventSource> TransientSourceState<T> {
             },
 //@ enditem
 //@ item src/sources/transient.rs / impl TransientSource<T> / fn replace props=C18
-//@ closure 1
+//@ closure <<|old| TransientSourceState::Replace { new, old }>>
 -> (r: TransientSourceState<T>) ensures r == (TransientSourceState::Replace { new, old })
 //@ spec
         requires old(self).st() matches TransientSourceState::Replace { new: n0, old: o0 } ==> droppable(o0),
